@@ -52,7 +52,7 @@ inductive GoVal where
 
 mutual
   def zero : GoTy → GoVal
-    | .string => .string "" | .int => .int 0 | .float => .float "0|0|0.000000e+00" | .bool => .bool false
+    | .string => .string "" | .int => .int 0 | .float => .float "0|0|0.000000e+00|0" | .bool => .bool false
     | .any => .any .null
     | .slice _ => .slice none | .map _ => .map none | .omap _ => .omap none | .ptr _ => .ptr none
     | .struct fs => .struct (zeroFields fs)
